@@ -118,8 +118,10 @@ func supportedParam(t types.Type, depth int) bool {
 		return true // nil, or a recording fake for net.Conn
 	case *types.Signature:
 		return true // nil
-	case *types.Map, *types.Chan:
+	case *types.Map:
 		return true
+	case *types.Chan:
+		return false // a nil channel blocks the replayed function for ever
 	}
 	return false
 }
